@@ -95,8 +95,7 @@ def tlc(spec, cfg, workers=None, timeout=600, env=None, simulate=None, depth=Non
     jopts = []
     if dfs:
         jopts.append("-Dtlc2.tool.queue.IStateQueue=StateDeque")
-    if heap:
-        jopts.append("-Xmx%s" % heap)
+    jopts.append("-Xmx%s" % (heap or os.environ.get("VERIF_TLC_HEAP", "8g")))
     e = dict(env or {})
     if jopts:
         e["JAVA_TOOL_OPTIONS"] = " ".join(jopts)
